@@ -354,7 +354,7 @@ def run(ctx):
     res = core.Result()
     res.rule = ("schedules on a virtual time line (unit 2^-20 s): openHandshakeTimeout {1,1.5,2,5}s, closeHandshakeTimeout {1,2,5}s from start "
                 "offsets {8u,0.5s,1s-8u,1.25s}, serverConnectionDropTimeout {1,2,5}s, autoPing interval/timeout grid {1,3}s x {0,1,2,5}s x "
-                "restart-on-traffic x payload sizes; each awaited peer reaction (handshake bytes, close reply, TCP drop, pong, data frame) placed "
+                "restart-on-traffic x payload sizes; each awaited peer reaction (handshake bytes, close reply, TCP drop, pong, whole data message, non-final fragment of a long message) placed "
                 "on a 0.1 s lattice from -1.2 s to +0.3 s around its deadline or omitted; probes at deadline-8u, deadline, deadline+8u; then "
                 "connection lost and a one-hour clock advance; both roles, Twisted and asyncio; exact comparison with the Lean model after "
                 "every event + independent deadline oracle; non-trivial = distinct schedule")
